@@ -197,6 +197,22 @@ func TxAddressee(f []string) int {
 	return ten
 }
 
+// TxSeveralTenants: the transaction carries messages addressed to two or more tenants (it is all or nothing, so what becomes of one
+// tenant's message in it depends, by construction, on the other's)
+func TxSeveralTenants(f []string) bool {
+	t := parseTx(f)
+	seen := map[uint64]bool{}
+	walkLeaves(t.msgs, 0, func(m *mexpr, _ int) {
+		switch m.kind {
+		case "deposit", "record", "cancel", "addadmin", "rmadmin", "setperiod":
+			if len(m.args) >= 2 {
+				seen[pu(m.args[1])] = true
+			}
+		}
+	})
+	return len(seen) >= 2
+}
+
 // ---------- C03 ----------
 
 func monC03(tr *Trace, br map[string]int) (out []Violation) {
